@@ -96,8 +96,13 @@ func New(seed int64, o Options) *G {
 
 func (g *G) id(p string) string {
 	g.n++
-	if g.O.Unicode && g.R.Intn(5) == 0 {
-		return fmt.Sprintf("%sü%d", p, g.n)
+	if g.O.Unicode {
+		switch g.R.Intn(10) {
+		case 0, 1:
+			return fmt.Sprintf("%sü%d", p, g.n)
+		case 2:
+			return fmt.Sprintf("é%s%d", p, g.n) // the identifier STARTS with a non-ASCII letter
+		}
 	}
 	return fmt.Sprintf("%s%d", p, g.n)
 }
